@@ -13,7 +13,7 @@ const char *engine_for_check(const std::string &check)
     std::string id = check.substr(0, 3);
     if (id == "C13" || id == "C14") return "doc";
     if (id == "C15" || id == "C05" || id == "C06") return "array";
-    if (id == "C16" || id == "C17" || id == "C20" || id == "C10") return "cal";
+    if (id == "C16" || id == "C17" || id == "C20" || id == "C10" || id == "C07") return "cal";
     if (const char *e = getenv("VSIM_ENGINE")) return e;
     return nullptr;
 }
